@@ -28,7 +28,7 @@ import (
 
 const c06Rule = "case = (base chain with L1 info update logs in generated blocks, finalized pointer lagging the tip, a list of fork " +
 	"operations [fork point above the highest finalized block ever reported, new suffix with events added/removed/moved, longer " +
-	"or shorter] each bound to a trigger 'when the node makes its k-th RPC', tip growth between them, optional stop/restart of " +
+	"or shorter] each bound to a trigger 'when the node makes its k-th RPC' (a third of them applied atomically between two consecutive RPCs, optionally right before a query of the finalized block, with finality advancing onto the new fork at the same moment), tip growth between them, optional stop/restart of " +
 	"reorg detector + syncer) through the real reorgdetector + public l1infotreesync.New (real downloader, driver, processor) on " +
 	"the scripted chain; oracle = (1) once the chain stops changing and the node is idle, the stored leaves equal those of the " +
 	"final canonical chain, (2) an isolated fork that replaced delivered blocks is followed by a recorded rewind at or before the " +
@@ -54,6 +54,12 @@ type c06Fork struct {
 	Quiesce bool  // let the node go idle before this fork (isolated fork)
 	Down    bool  // the node is stopped before the fork and restarted after it (and after the chain grew)
 	PassFin bool  // with Down: the chain grows until finality has passed the fork point before the restart
+	// Atomic: the fork happens between two consecutive RPCs of the node (applied inside the chain's RPC hook, right before
+	// the Trigger-th next RPC - or, with OnFin, the Trigger-th next query of the finalized block - is served), the new
+	// fork is at once at least as long as the old one and finality advances FinJump blocks beyond the fork point (-1: not at all)
+	Atomic  bool
+	OnFin   bool
+	FinJump int
 }
 
 type c06Case struct {
@@ -79,6 +85,13 @@ func c06Gen(rt *rapid.T) c06Case {
 		f := c06Fork{At: rapid.IntRange(0, 8).Draw(rt, "forkDepth"), Trigger: rapid.IntRange(0, 40).Draw(rt, "trigger"), Quiesce: rapid.Bool().Draw(rt, "isolated")}
 		if rapid.IntRange(0, 3).Draw(rt, "whileDown") == 0 {
 			f.Down, f.PassFin = true, rapid.Bool().Draw(rt, "finalityPassesFork")
+		} else if rapid.IntRange(0, 2).Draw(rt, "betweenTwoRPCs") == 0 {
+			f.Atomic, f.Quiesce = true, false
+			f.OnFin = rapid.Bool().Draw(rt, "atFinalizedQuery")
+			f.FinJump = rapid.IntRange(-1, 9).Draw(rt, "finalityJump")
+			if f.OnFin {
+				f.Trigger = rapid.IntRange(0, 12).Draw(rt, "triggerFin")
+			}
 		}
 		for k, m := 0, rapid.IntRange(0, 8).Draw(rt, "suffixLen"); k < m; k++ {
 			f.Suffix = append(f.Suffix, rapid.SampledFrom([]int{0, 1, 1, 2, 3, 3, 4}).Draw(rt, "suffixLogs"))
@@ -343,6 +356,7 @@ type c06Result struct {
 	forksDone      int
 	replacedEv     int
 	replacedSecond int
+	atomicForks    int
 }
 
 func c06Run(c c06Case) (res c06Result) {
@@ -370,6 +384,9 @@ func c06Run(c c06Case) (res c06Result) {
 		cancelFn    context.CancelFunc
 		restarted   bool
 		cancelledAt time.Time
+		atomicLeft  int    // RPCs (or finalized queries) still to be served before the registered atomic fork
+		atomicOnFin bool   // count finalized queries only
+		atomicFn    func() // registered atomic fork (runs inside the hook: chain locked, mu held)
 	)
 	chain.Hook = func(ch *fakechain.Chain, call fakechain.Call) error {
 		mu.Lock()
@@ -379,6 +396,15 @@ func c06Run(c c06Case) (res c06Result) {
 			restarted = true
 			cancelledAt = time.Now()
 			cancelFn()
+		}
+		if atomicFn != nil && (!atomicOnFin || (call.Method == "HeaderByNumber" && call.Tag == "finalized")) {
+			if atomicLeft <= 0 {
+				fn := atomicFn
+				atomicFn = nil
+				fn()
+			} else {
+				atomicLeft--
+			}
 		}
 		switch {
 		case call.Method == "FilterLogs":
@@ -549,55 +575,104 @@ func c06Run(c c06Case) (res c06Result) {
 		} else {
 			waitRPCs(f.Trigger)
 		}
-		// fork strictly above the highest finalized block ever reported
-		chain.Lock()
-		tip := chain.TipLocked()
-		floor := chain.MaxFinalizedReported
-		if fl := chain.FinalizedLocked(); fl > floor {
-			floor = fl
-		}
-		at := uint64(0)
-		if tip >= uint64(f.At) {
-			at = tip - uint64(f.At)
-		}
-		if at <= floor {
-			at = floor + 1
-		}
-		if at > tip+1 {
-			at = tip + 1
-		}
-		if tip > maxTip {
-			maxTip = tip
-		}
-		old := map[uint64]common.Hash{}
-		for n := at; n <= tip; n++ {
-			old[n] = chain.HeaderLocked(n).Hash()
-			replacedHashes[old[n]] = true
-		}
 		type subState struct {
 			id           string
 			delivered    map[uint64]common.Hash
 			eventsBefore int
 			first, last  uint64 // first / last delivered block that this fork replaces (0: none)
 		}
-		subs := []*subState{{id: "l1InfoTreeSyncer", delivered: deliveredBlocks(storePath)}}
-		if c.Second {
-			subs = append(subs, &subState{id: c06SecondID, delivered: rec2.delivered()})
+		var (
+			at, newTip uint64
+			old        = map[uint64]common.Hash{}
+			subs       []*subState
+		)
+		// applyLocked performs the fork (chain locked): strictly above the highest finalized block ever reported
+		applyLocked := func() {
+			tip := chain.TipLocked()
+			floor := chain.MaxFinalizedReported
+			if fl := chain.FinalizedLocked(); fl > floor {
+				floor = fl
+			}
+			at = 0
+			if tip >= uint64(f.At) {
+				at = tip - uint64(f.At)
+			}
+			if at <= floor {
+				at = floor + 1
+			}
+			if at > tip+1 {
+				at = tip + 1
+			}
+			if tip > maxTip {
+				maxTip = tip
+			}
+			for n := at; n <= tip; n++ {
+				old[n] = chain.HeaderLocked(n).Hash()
+				replacedHashes[old[n]] = true
+			}
+			subs = []*subState{{id: "l1InfoTreeSyncer", delivered: deliveredBlocks(storePath)}}
+			if c.Second {
+				subs = append(subs, &subState{id: c06SecondID, delivered: rec2.delivered()})
+			}
+			for _, sb := range subs {
+				sb.eventsBefore = len(reorgEvents(rdPath, sb.id))
+			}
+			var suffix [][]types.Log
+			for _, n := range f.Suffix {
+				suffix = append(suffix, c06Logs(n))
+			}
+			if at <= tip || len(suffix) > 0 {
+				chain.ForkLocked(at, suffix)
+			}
+			if f.Atomic {
+				// the canonical chain is at once longer than the fork it replaces ...
+				for chain.TipLocked() <= maxTip {
+					chain.ExtendLocked(nil)
+				}
+			}
+			newTip = chain.TipLocked()
+			fin := chain.FinalizedLocked()
+			if f.Atomic && f.FinJump >= 0 {
+				// ... and finality moves on (to a block of the new fork) before the node's next RPC
+				if j := at + uint64(f.FinJump); j > fin {
+					fin = j
+				}
+				if fin > newTip {
+					fin = newTip
+				}
+			}
+			chain.SetPointersLocked(newTip, newTip, fin)
 		}
-		for _, sb := range subs {
-			sb.eventsBefore = len(reorgEvents(rdPath, sb.id))
+		if f.Atomic {
+			fired := make(chan struct{})
+			mu.Lock()
+			atomicLeft, atomicOnFin = f.Trigger, f.OnFin
+			atomicFn = func() { applyLocked(); close(fired) }
+			mu.Unlock()
+			ok := false
+			for dl := time.Now().Add(5 * time.Second); time.Now().Before(dl) && !ok && pump(); {
+				select {
+				case <-fired:
+					ok = true
+				case <-time.After(300 * time.Microsecond):
+				}
+			}
+			if !ok {
+				mu.Lock()
+				still := atomicFn != nil
+				atomicFn = nil
+				mu.Unlock()
+				if still {
+					continue // the node made too few RPCs (stopped or halted): this fork does not happen
+				}
+				<-fired
+			}
+			res.atomicForks++
+		} else {
+			chain.Lock()
+			applyLocked()
+			chain.Unlock()
 		}
-		var suffix [][]types.Log
-		for _, n := range f.Suffix {
-			suffix = append(suffix, c06Logs(n))
-		}
-		if at <= tip || len(suffix) > 0 {
-			chain.ForkLocked(at, suffix)
-		}
-		newTip := chain.TipLocked()
-		fin := chain.FinalizedLocked()
-		chain.SetPointersLocked(newTip, newTip, fin)
-		chain.Unlock()
 		res.forksDone++
 		for _, sb := range subs {
 			for n, h := range sb.delivered {
@@ -772,6 +847,7 @@ func TestC06(t *testing.T) {
 		}
 		rec.Case(res.nontrivial, fmt.Sprintf("%+v", c))
 		rec.ClassN("forks_applied", res.forksDone)
+		rec.ClassN("forks_applied_between_two_consecutive_RPCs_of_the_node", res.atomicForks)
 		rec.ClassN("forks_replacing_delivered_blocks", res.replacedEv)
 		rec.ClassN("forks_replacing_blocks_of_the_second_syncer", res.replacedSecond)
 		if c.Second {
